@@ -1355,20 +1355,34 @@ fn main() {
         c.r.count("accounts", 1);
         c.r.count(&format!("accounts_net_{}", net_name(net)), 1);
 
-        timed!(c, "usk", check_usk(&mut c, &a));
-        timed!(c, "transparent", check_transparent(&mut c, &a));
-        timed!(c, "legacy", check_legacy(&mut c, &a));
+        // outer safety net: a panic outside the individually guarded calls is a reported panic of
+        // that check family, not a dead shard
+        macro_rules! protect {
+            ($name:literal, $e:expr) => {{
+                let r = timed!(c, $name, guard(|| $e));
+                match r {
+                    Ok(v) => Some(v),
+                    Err(p) => {
+                        c.viol(&format!("panic:{}:{}", $name, panic_class(&p)), format!("panicked in {}: {p}", $name), &acct_replay(&a));
+                        None
+                    }
+                }
+            }};
+        }
+        protect!("usk", check_usk(&mut c, &a));
+        protect!("transparent", check_transparent(&mut c, &a));
+        protect!("legacy", check_legacy(&mut c, &a));
 
         for k in SUBSETS {
             // the full key every time, the sub-keys in rotation
             if k != SUBSETS[0] && c.rng.gen_range(0..3) != 0 {
                 continue;
             }
-            let Some((ufvk, uivk)) = subset_keys(&a, k) else {
+            let Some((ufvk, uivk)) = guard(|| subset_keys(&a, k)).ok().flatten() else {
                 c.r.inconclusive("subset-key-not-constructible");
                 continue;
             };
-            timed!(c, "viewing_keys", check_viewing_keys(&mut c, &a, k, &ufvk, &uivk));
+            protect!("viewing_keys", check_viewing_keys(&mut c, &a, k, &ufvk, &uivk));
             c.r.count(&format!("subset_t{}s{}o{}", k.t as u8, k.s as u8, k.o as u8), 1);
             // requests: AllAvailableKeys + a rotating selection of the 27 triples (all 27 across accounts)
             let mut reqs: Vec<Option<(ReceiverRequirement, ReceiverRequirement, ReceiverRequirement)>> = vec![None];
@@ -1380,14 +1394,14 @@ fn main() {
             let mut noted = false;
             for req in reqs {
                 let j = c.arb_j();
-                let ua = timed!(c, "addresses", check_addresses(&mut c, &a, k, &ufvk, &uivk, j, req));
+                let ua = protect!("addresses", check_addresses(&mut c, &a, k, &ufvk, &uivk, j, req)).flatten();
                 // notes: always for the full key, for a third of the sub-keys (17 ms per probe set)
                 if let (Some(ua), false) = (ua, noted || (k != SUBSETS[0] && c.rng.gen_range(0..3) != 0)) {
-                    timed!(c, "notes", check_notes(&mut c, &a, &other, &uivk, &ua, j));
+                    protect!("notes", check_notes(&mut c, &a, &other, &uivk, &ua, j));
                     noted = true;
                     // an address of an unrelated key is not recognised
-                    if let Ok((foreign, _)) = other.usk.to_unified_full_viewing_key().default_address(UnifiedAddressRequest::SHIELDED) {
-                        if !uivk.decrypt_diversifiers(&foreign).is_empty() {
+                    if let Ok(Ok((foreign, _))) = guard(|| other.usk.to_unified_full_viewing_key().default_address(UnifiedAddressRequest::SHIELDED)) {
+                        if guard(|| uivk.decrypt_diversifiers(&foreign).is_empty()) != Ok(true) {
                             c.viol("foreign-address-recognised", "decrypt_diversifiers recovered an index for an unrelated key's address".into(), &acct_replay(&a));
                         }
                         c.r.count("foreign_addresses_not_recognised", 1);
